@@ -18,6 +18,10 @@ use log::{debug, error, info, trace};
 #[allow(unused_macros)]
 macro_rules! unreachable { ($($t:tt)*) => { crate::vx_panic() }; }
 #[allow(unused_macros)]
+macro_rules! vx_panic_m { ($($t:tt)*) => { crate::vx_panic() }; }
+#[allow(unused_macros)]
+macro_rules! vx_assert_m { ($c:expr $(, $($t:tt)*)?) => { crate::vx_assert($c) }; }
+#[allow(unused_macros)]
 macro_rules! assert_eq { ($a:expr, $b:expr $(, $($t:tt)*)?) => { crate::vx_assert($a == $b) }; }
 #[allow(unused_macros)]
 macro_rules! assert_ne { ($a:expr, $b:expr $(, $($t:tt)*)?) => { crate::vx_assert($a != $b) }; }
